@@ -937,6 +937,8 @@ fn run(v: &Value) -> Result<String, String> {
                             let got = reg.aliases_for(repe::PeerId(p as u64 + 1));
                             let want: Vec<String> = lists[p].iter().map(|k| keys[*k].to_string()).collect();
                             if got != want { return Err(format!("history {seq:?} step {step}: aliases_for({}) = {got:?}, model says {want:?}", p + 1)); }
+                            let kf = reg.key_for(repe::PeerId(p as u64 + 1));
+                            if kf != want.first().cloned() { return Err(format!("history {seq:?} step {step}: key_for({}) = {kf:?}; the peer's alias list is {want:?} (its first key is the oldest still assigned)", p + 1)); }
                         }
                         for p in 0..3 {
                             let got = reg.key_for(repe::PeerId(p as u64 + 1));
